@@ -4,6 +4,7 @@ import (
 	"fmt"
 	"go/token"
 	"go/types"
+	"math"
 	"sort"
 	"strings"
 
@@ -177,6 +178,11 @@ func runFltExh(c *core.Ctx) {
 				if an.PathOf(st.Val) == "p:"+ctor.Params[0].Name()+"."+f {
 					ok = true
 				}
+				// a private copy of the pointed-to value (`cloneInt64(filter.Since)`: nil stays nil, otherwise
+				// a fresh pointer to the same number)
+				if call := an.CallOf(st.Val); call != nil && len(call.Call.Args) == 1 && an.PathOf(call.Call.Args[0]) == "p:"+ctor.Params[0].Name()+"."+f && ptrCloneHelper(an.StaticCallee(&call.Call)) {
+					ok = true
+				}
 				if call := an.CallOf(st.Val); call != nil {
 					for _, k := range setBuilderKeys(c, call) {
 						if fromField(k) {
@@ -307,7 +313,20 @@ func runFltNil(c *core.Ctx) {
 				if strings.HasPrefix(sp, "len(") {
 					if f, ok := s.base(strings.TrimSuffix(strings.TrimPrefix(sp, "len("), ")")); ok {
 						if k, isK := an.ConstInt(other); isK && k == 0 {
-							lenTests[f] = append(lenTests[f], P.Pos(b.Pos()))
+							// `x != nil && len(x) == 0` asks "present but empty", which is what the rule wants told
+							// apart from absent: not a presence test by length
+							presentKnown := false
+							for _, g := range an.Guards(b.Parent(), b.Block()) {
+								g = an.NormCond(g)
+								if nb, isBin := g.V.(*ssa.BinOp); isBin && an.IsNilConst(nb.Y) && (nb.Op == token.NEQ) == g.True {
+									if f2, ok2 := s.base(o.Path(nb.X)); ok2 && f2 == f {
+										presentKnown = true
+									}
+								}
+							}
+							if !presentKnown {
+								lenTests[f] = append(lenTests[f], P.Pos(b.Pos()))
+							}
 						}
 					}
 				}
@@ -469,6 +488,29 @@ func runLimDone(c *core.Ctx) {
 	t2, _, n2, ok2 := an.NoSubject().FuncBoolMeaning(done, 0, absent, nil)
 	c.CountPaths(n2)
 	c.Check(ok2 && n2 > 0 && t2.IsEmpty(), nil, fname(c, done), "done(no limit)", P.Pos(done.Pos()), "without a limit Done is false", "a matcher without limit can report Done")
+	// … on whatever way: every path on which Done answers true has found the limit present (an early
+	// `return true` for a matcher that "can never match anyway" reports a filter without limit as exhausted)
+	if tps, okT := an.ResultPaths(done, 0, true); okT {
+		var noLimit []string
+		for _, tp := range tps {
+			present := false
+			for _, cd := range tp.Conds {
+				if is, nonNilWhenTrue := nilTest(cd.V, limitPath); is && cd.True == nonNilWhenTrue {
+					present = true
+				}
+			}
+			if !present {
+				var cs []string
+				for _, cd := range tp.Conds {
+					cs = append(cs, fmt.Sprintf("%s=%v", clip(an.PathOf(cd.V), 40), cd.True))
+				}
+				noLimit = append(noLimit, strings.Join(cs, " ∧ "))
+			}
+		}
+		c.CountPaths(len(tps))
+		c.Check(len(noLimit) == 0 && len(tps) > 0, nil, fname(c, done), "done(only with limit)", P.Pos(done.Pos()), fmt.Sprintf("all %d ways Done answers true have tested the limit present", len(tps)),
+			"Done answers true without having found a limit ("+strings.Join(noLimit, " | ")+"): a filter without limit, or with an unreached one, is reported exhausted, so a filter list reports Done although not every filter has reached its limit")
+	}
 	// LimitMatch: cnt += 1 exactly on Match() == true
 	var st *ssa.Store
 	var stOcc an.Occ
@@ -493,6 +535,21 @@ func runLimDone(c *core.Ctx) {
 		isMatch := func(v ssa.Value) bool {
 			call, isCall := v.(*ssa.Call)
 			return isCall && an.StaticCallee(&call.Call) == match && an.PathOf(call.Call.Args[0]) == "recv" && an.PathOf(call.Call.Args[1]) == "p:"+lm.Params[1].Name()
+		}
+		// a saturation guard (`match && cnt < math.MaxInt64`) only keeps the counter from wrapping: it
+		// cannot fail before 2^63-1 matches, and limit <= cnt is then true for every int64 limit anyway
+		{
+			var kept []an.Cond
+			for _, g := range gs {
+				gn := an.NormCond(g)
+				if sb, isB := gn.V.(*ssa.BinOp); isB && gn.True && sb.Op == token.LSS && stOcc.Path(sb.X) == cntPath {
+					if kk, isK := an.ConstInt(sb.Y); isK && kk == math.MaxInt64 {
+						continue
+					}
+				}
+				kept = append(kept, g)
+			}
+			gs = kept
 		}
 		onlyMatch := len(gs) == 1
 		if onlyMatch {
@@ -1247,4 +1304,48 @@ func runCombTab(c *core.Ctx) {
 		}
 	}
 	c.Check(okCtor, nil, fname(c, ctor), "one-per-filter", P.Pos(ctor.Pos()), "member i is built from filter i, for every filter", "the list matcher is not built with exactly one member per filter (member i from filter i)")
+}
+
+// ptrCloneHelper: g(p *T) *T answers nil for nil and otherwise a pointer to a fresh variable that
+// holds *p — a private copy of an optional scalar.
+func ptrCloneHelper(g *ssa.Function) bool {
+	if !an.PrivateHelper(g) || len(g.Params) != 1 || g.Signature.Results().Len() != 1 || len(g.Blocks) == 0 {
+		return false
+	}
+	par := g.Params[0]
+	if _, isPtr := par.Type().Underlying().(*types.Pointer); !isPtr || !types.Identical(par.Type(), g.Signature.Results().At(0).Type()) {
+		return false
+	}
+	n := 0
+	for _, rb := range an.ReturnBlocks(g) {
+		rv := an.ReturnValues(an.LastInstr(rb).(*ssa.Return))[0]
+		if an.IsNilConst(rv) {
+			// only when the argument is nil
+			okNil := false
+			for _, gd := range an.Guards(g, rb) {
+				gd = an.NormCond(gd)
+				if b, ok := gd.V.(*ssa.BinOp); ok && b.X == ssa.Value(par) && an.IsNilConst(b.Y) && (b.Op == token.EQL) == gd.True {
+					okNil = true
+				}
+			}
+			if !okNil {
+				return false
+			}
+			continue
+		}
+		a, ok := rv.(*ssa.Alloc)
+		if !ok {
+			return false
+		}
+		sts := an.StoresTo(a)
+		if len(sts) != 1 {
+			return false
+		}
+		u, ok := sts[0].Val.(*ssa.UnOp)
+		if !ok || u.Op != token.MUL || u.X != ssa.Value(par) {
+			return false
+		}
+		n++
+	}
+	return n > 0
 }
